@@ -9,12 +9,26 @@
 //   sup <seed32> <bound> <count>          v0 v1 v2 v3 fold [range!] [nondet]   random::sup<size_t>
 //   between <seed32> <a> <b> <count>      v0 v1 v2 v3 fold [range!] [nondet]   random::between<int>
 //   mixed <seed32> <count>                fold [nondet]    every entry point of vita::random, twice
+//   cfgrt <A> <k> <B> <j> <n> <cfg>       same|diff|diff-stream|fail|oob  b0 b1 b2 b3  <hex of the text written>
+//                                         engine A (after k draws) is written to a std::stringstream whose
+//                                         formatting state / locale is <cfg> and read back from the SAME stream
+//                                         into engine B (after j draws); the restored words are compared with A's
+//                                         (object representation, independent of operator<< and operator==)
+//   cfgload <B> <j> <cfg> <hex text> <n>  ok|fail|oob  b0 b1 b2 b3  <o0 … o(n-1)>   operator>> under <cfg>
+//   an engine <A>/<B>/<seed> is `default`, a seed, or `st:w0:w1:w2:w3` (the four state words, any value)
+//   <cfg> = base:showbase:uppercase:showpos:width:fill:adjust:skipws:sep:grouping
+//           base 10|16|8|0 (no basefield bit), fill/sep character codes, adjust 0 left 1 right 2 internal
+//           3 none, sep `-` = classic locale, otherwise a std::numpunct<char> facet with that thousands
+//           separator and `grouping` (hex bytes, `-` = empty)
 #define VERIF_UBSAN_HOOK
 #include "kernel/vita.h"
 #include "common/verif.h"
 
+#include <array>
+#include <locale>
 #include <new>
 #include <sstream>
+#include <type_traits>
 
 using engine = vigna::xoshiro256ss;
 
@@ -25,12 +39,114 @@ namespace
 // we own, so the harness survives to report what UBSan saw.
 alignas(16) unsigned char arena[2][1024];
 
+static_assert(sizeof(engine) == 4 * sizeof(std::uint64_t) && std::is_trivially_copyable_v<engine>,
+              "xoshiro256ss is no longer exactly its four state words: adapt words()/make()");
+
+// the four state words, read from the object representation (no operator of the engine involved)
+std::array<std::uint64_t, 4> words(const engine &e)
+{
+  std::array<std::uint64_t, 4> w;
+  std::memcpy(w.data(), &e, sizeof(w));
+  return w;
+}
+
 engine *make(int slot, const std::string &seed)
 {
   std::memset(arena[slot], 0, sizeof(arena[slot]));
   if (seed == "default")
     return new (arena[slot]) engine();
+  if (seed.rfind("st:", 0) == 0)
+  {
+    auto *e(new (arena[slot]) engine());
+    std::array<std::uint64_t, 4> w;
+    std::size_t pos(3);
+    for (auto &x : w)
+    {
+      std::size_t used(0);
+      x = std::stoull(seed.substr(pos), &used);
+      pos += used + 1;
+    }
+    std::memcpy(static_cast<void *>(e), w.data(), sizeof(w));
+    return e;
+  }
   return new (arena[slot]) engine(std::stoull(seed));
+}
+
+// ---- stream configurations ------------------------------------------------------------------------
+struct punct : std::numpunct<char>
+{
+  punct(char s, std::string g) : sep_(s), grp_(std::move(g)) {}
+  char do_thousands_sep() const override { return sep_; }
+  std::string do_grouping() const override { return grp_; }
+  char sep_;
+  std::string grp_;
+};
+
+struct cfg
+{
+  unsigned base = 10, width = 0, adjust = 0;
+  bool showbase = false, upper = false, showpos = false, skipws = true, facet = false;
+  char fill = ' ', sep = ',';
+  std::string grouping;
+};
+
+cfg parse_cfg(const std::string &t)
+{
+  std::vector<std::string> f;
+  std::size_t p(0);
+  while (true)
+  {
+    const auto q(t.find(':', p));
+    f.push_back(t.substr(p, q == std::string::npos ? q : q - p));
+    if (q == std::string::npos) break;
+    p = q + 1;
+  }
+  if (f.size() != 10) throw std::runtime_error("cfg");
+  cfg c;
+  c.base = std::stoul(f[0]);
+  c.showbase = f[1] == "1";
+  c.upper = f[2] == "1";
+  c.showpos = f[3] == "1";
+  c.width = std::stoul(f[4]);
+  c.fill = static_cast<char>(std::stoul(f[5]));
+  c.adjust = std::stoul(f[6]);
+  c.skipws = f[7] == "1";
+  c.facet = f[8] != "-";
+  if (c.facet)
+  {
+    c.sep = static_cast<char>(std::stoul(f[8]));
+    c.grouping = verif::unhex(f[9]);
+  }
+  return c;
+}
+
+void configure(std::ios &s, const cfg &c)
+{
+  if (c.facet)
+    s.imbue(std::locale(std::locale::classic(), new punct(c.sep, c.grouping)));
+  auto f(s.flags());
+  f &= ~(std::ios::basefield | std::ios::adjustfield | std::ios::showbase | std::ios::uppercase
+         | std::ios::showpos | std::ios::skipws);
+  if (c.base == 10) f |= std::ios::dec;
+  if (c.base == 16) f |= std::ios::hex;
+  if (c.base == 8) f |= std::ios::oct;
+  if (c.adjust == 0) f |= std::ios::left;
+  if (c.adjust == 1) f |= std::ios::right;
+  if (c.adjust == 2) f |= std::ios::internal;
+  if (c.showbase) f |= std::ios::showbase;
+  if (c.upper) f |= std::ios::uppercase;
+  if (c.showpos) f |= std::ios::showpos;
+  if (c.skipws) f |= std::ios::skipws;
+  s.flags(f);
+  s.width(c.width);
+  s.fill(c.fill);
+}
+
+std::string words_text(const engine &e)
+{
+  std::string out;
+  for (auto w : words(e)) out += " " + std::to_string(w);
+  return out;
 }
 
 std::uint64_t fold(std::uint64_t h, std::uint64_t o) { return h * 0x100000001B3ull + o; }
@@ -178,6 +294,47 @@ std::string answer(const std::vector<std::string> &t)
   }
   if (t.size() == 3 && t[0] == "mixed")
     return mixed(std::stoul(t[1]), std::stoul(t[2]));
+  if (t.size() == 7 && t[0] == "cfgrt")
+  {
+    auto *a(make(0, t[1]));
+    for (unsigned k(std::stoul(t[2])); k; --k) (*a)();
+    auto *b(make(1, t[3]));
+    for (unsigned j(std::stoul(t[4])); j; --j) (*b)();
+    const auto c(parse_cfg(t[6]));
+
+    std::stringstream ss;
+    configure(ss, c);
+    const auto before(verif::ubsan_reports);
+    ss << *a;
+    const std::string text(ss.str());
+    ss >> *b;
+    const bool oob(verif::ubsan_reports != before);
+    const bool failed(ss.fail());
+    std::string verdict(oob ? "oob" : failed ? "fail" : words(*a) == words(*b) ? "same" : "diff");
+    const std::string restored(words_text(*b));
+    if (verdict == "same")
+    {
+      if (!(*a == *b)) verdict = "diff-stream";
+      for (unsigned n(std::stoul(t[5])); n; --n)
+        if ((*a)() != (*b)()) verdict = "diff-stream";
+    }
+    return verdict + restored + " " + verif::hex(text);
+  }
+  if (t.size() == 6 && t[0] == "cfgload")
+  {
+    auto *b(make(1, t[1]));
+    for (unsigned j(std::stoul(t[2])); j; --j) (*b)();
+    const auto c(parse_cfg(t[3]));
+    std::istringstream is(verif::unhex(t[4]));
+    configure(is, c);
+    const auto before(verif::ubsan_reports);
+    is >> *b;
+    const bool oob(verif::ubsan_reports != before);
+    std::string out(oob ? "oob" : is.fail() ? "fail" : "ok");
+    out += words_text(*b);
+    for (unsigned n(std::stoul(t[5])); n; --n) out += " " + std::to_string((*b)());
+    return out;
+  }
   return "bad-op";
 }
 
